@@ -72,6 +72,8 @@ class InverseLaplaceTransformer(UnilateralInverseTransformer):
             self.error('Not a second-order response')
 
         omega0 = sym.sqrt(dcoeffs[2])
+        if omega0 == 0 or dcoeffs[1]**2 == 4 * dcoeffs[2]:
+            self.error('Not a damped sinusoid')
         zeta = dcoeffs[1] / (2 * omega0)
 
         if zeta.is_constant() and zeta > 1:
@@ -118,7 +120,10 @@ class InverseLaplaceTransformer(UnilateralInverseTransformer):
 
         if kwargs.get('damped_sin', False):
             if sexpr.degree == 2:
-                return self.do_damped_sin(sexpr, s, t)
+                try:
+                    return self.do_damped_sin(sexpr, s, t)
+                except ValueError:
+                    pass
             # if False and sexpr.degree == 3 and Ratfun(expr * s).degree == 2:
             #    return self.do_damped_sin3(sexpr, s, t)
 
